@@ -300,6 +300,57 @@ func edits(seed []byte, fn func(desc string, data []byte)) {
 	}
 }
 
+// lineEdits enumerates header-multiset edits of seed: every header line repeated 0 or 2..5
+// times (in place, or with the copies moved to the end of the block), and every pair of lines
+// each repeated 0, 2 or 3 times.
+func lineEdits(seed []byte, fn func(desc string, data []byte)) {
+	end := bytes.Index(seed, []byte("\r\n\r\n"))
+	if end < 0 {
+		return
+	}
+	lines := strings.Split(string(seed[:end]), "\r\n")
+	rest := string(seed[end+4:])
+	build := func(count []int, moved int) []byte {
+		var b, tail strings.Builder
+		for i, l := range lines {
+			for k := 0; k < count[i]; k++ {
+				if i == moved && k > 0 {
+					tail.WriteString(l + "\r\n")
+				} else {
+					b.WriteString(l + "\r\n")
+				}
+			}
+		}
+		return []byte(b.String() + tail.String() + "\r\n" + rest)
+	}
+	ones := func() []int {
+		c := make([]int, len(lines))
+		for i := range c {
+			c[i] = 1
+		}
+		return c
+	}
+	for i := range lines {
+		for _, r := range []int{0, 2, 3, 4, 5} {
+			c := ones()
+			c[i] = r
+			fn(fmt.Sprintf("line#%d x%d", i, r), build(c, -1))
+			if r > 1 {
+				fn(fmt.Sprintf("line#%d x%d (copies last)", i, r), build(c, i))
+			}
+		}
+		for j := i + 1; j < len(lines); j++ {
+			for _, ri := range []int{0, 2, 3} {
+				for _, rj := range []int{0, 2, 3} {
+					c := ones()
+					c[i], c[j] = ri, rj
+					fn(fmt.Sprintf("line#%d x%d, line#%d x%d", i, ri, j, rj), build(c, -1))
+				}
+			}
+		}
+	}
+}
+
 var theURL, _ = url.ParseRequestURI("ws://example.com/chat")
 
 func hostileUpgrade(data []byte, bufSize int) (sig, detail string) {
@@ -358,7 +409,12 @@ func hostileHTTPUpgrade(data []byte) (sig, detail string) {
 
 func hostileDial(resp []byte, bufSize int) (sig, detail string) {
 	d := ws.Dialer{ReadBufferSize: bufSize, Protocols: []string{"a", "b"}, Extensions: []httphead.Option{wsflate.DefaultParameters.Option(), httphead.NewOption("x", nil)}}
-	conn := &hs.LazyConn{Respond: func([]byte) []byte { return resp }}
+	// the seeds carry the accept value of the canonical key; the dialer's nonce is random, so
+	// wherever an edit left that value intact it is replaced by the one matching the request
+	// actually sent: responses that are hostile *and* carry the right accept are reached too
+	conn := &hs.LazyConn{Respond: func(req []byte) []byte {
+		return bytes.ReplaceAll(resp, []byte(hs.Accept(hs.CanonKey)), []byte(hs.Accept(hs.KeyOf(req))))
+	}}
 	func() {
 		defer func() {
 			if r := recover(); r != nil {
@@ -410,6 +466,7 @@ func main() {
 				watchdog := time.AfterFunc(3*time.Minute, func() { hung = true; cmd.Process.Kill() })
 				for sc.Scan() {
 					watchdog.Reset(3 * time.Minute)
+					explore.Progress()
 					line := sc.Text()
 					switch {
 					case strings.HasPrefix(line, "P "):
@@ -477,6 +534,12 @@ func main() {
 			}
 			for si, seed := range responseSeeds(hs.CanonKey) {
 				edits(seed, func(desc string, d []byte) { jobs = append(jobs, job{"response", si, desc, d}) })
+			}
+			for si, seed := range requestSeeds() {
+				lineEdits(seed, func(desc string, d []byte) { jobs = append(jobs, job{"request", si, desc, d}) })
+			}
+			for si, seed := range responseSeeds(hs.CanonKey) {
+				lineEdits(seed, func(desc string, d []byte) { jobs = append(jobs, job{"response", si, desc, d}) })
 			}
 			if t.Thorough() {
 				// all pairs of special-byte replacements inside the header block of the short seeds
